@@ -142,10 +142,14 @@ func (p *Processor[K, T]) process(isNext bool) {
 
 // Processing loop.
 func (p *Processor[K, T]) processLoop() {
+	// Set to true once the loop has given up the "running" token itself (see below)
+	released := false
 	defer func() {
-		// Release the channel when exiting
-		<-p.processorRunningCh
-		verifhook.Point("queue.loop.released")
+		// Release the channel when exiting, unless that was done already
+		if !released {
+			<-p.processorRunningCh
+			verifhook.Point("queue.loop.released")
+		}
 	}()
 
 	var (
@@ -161,11 +165,19 @@ func (p *Processor[K, T]) processLoop() {
 		p.lock.Lock()
 		r, ok = p.queue.Peek()
 		verifhook.Point("queue.loop.peeked", r, ok)
-		p.lock.Unlock()
 		if !ok {
+			// The queue is empty and the loop is about to exit: give up the "running" token while still
+			// holding the lock. Otherwise an Enqueue that runs after the lock is released but before
+			// the token is would find a loop "running", only send it a reset signal that nobody
+			// receives, and the new item would be left in the queue with no loop to process it.
+			<-p.processorRunningCh
+			released = true
+			verifhook.Point("queue.loop.released")
+			p.lock.Unlock()
 			verifhook.Point("queue.loop.sawEmpty")
 			return
 		}
+		p.lock.Unlock()
 
 		// Check if after obtaining the lock we have a stop or reset signals
 		// Do this before we create a timer
